@@ -273,6 +273,20 @@ def end_to_end(chk, tier):
                                        'formula': gforms[c], 'phase': phase, 'impl': g4, 'want': w, 'stream': 'area-past-used-rows'})
         except Exception as e:  # noqa
             chk.violation({'why': 'the workbook with an area past the used rows does not translate', 'impl': 'E' + core.exc_class(e)})
+        # keys outside ASCII: equal means equal without regard to case, nothing more (the sharp s is not "ss", a ligature is not its letters)
+        nkeys = ['Masse', 'Maße', 'STRASSE', 'Straße', 'ﬁn', 'fin', 'İ', 'i']
+        nforms, nwant = [], []
+        for lv in ['Maße', 'masse', 'strasse', 'STRAßE', 'FIN', 'ﬁn', 'I', 'İ']:
+            eq = [i + 1 for i, kx in enumerate(nkeys) if kx.lower() == lv.lower()]
+            nforms += ['=MATCH("%s",A1:A8,0)' % lv, '=XMATCH("%s",A1:A8,0,-1)' % lv, '=VLOOKUP("%s",A1:B8,2,FALSE)' % lv, '=INDEX(B1:B8,MATCH("%s",A1:A8,0))' % lv]
+            nwant += [core.enc(eq[0]) if eq else core.enc('#N/A'), core.enc(eq[-1]) if eq else core.enc('#N/A'), None, core.enc('p%d' % eq[0]) if eq else None]
+        nvals = {(0, i): kx for i, kx in enumerate(nkeys)}
+        nvals.update({(1, i): 'p%d' % (i + 1) for i in range(len(nkeys))})
+        for f, g5, w in zip(nforms, realcode.eval_formulas(nforms, nvals), nwant):
+            chk.count('e2e:non-ascii-keys')
+            if w is not None and g5 != w:
+                chk.violation({'why': 'a text key outside ASCII is matched by a lookup value that is not equal to it (equal = equal without regard to case)', 'formula': f, 'keys': repr(nkeys),
+                               'impl': g5, 'want': w, 'stream': 'non-ascii-keys'})
         # COLUMN() of the formula's own cell: formulas sit in column index fcol (0-based) = 6 here
         g = realcode.eval_formulas(['=COLUMN()'], values)[0]
         if g != core.enc(7):
